@@ -169,6 +169,7 @@ type genOpts struct {
 	iso       bool
 	enum      int
 	enum2     bool
+	refresh   bool // some fault scans fail the first provider refresh (costs the code's own 5 s sleep each)
 }
 
 // weights of the event kinds per profile (per cent-ish; normalised when drawn)
@@ -214,6 +215,12 @@ func drawKind(r *rand.Rand, profile string, step int) string {
 func genCfg(r *rand.Rand, o genOpts) world.Cfg {
 	t := thresholdTriples[r.Intn(len(thresholdTriples))]
 	c := world.Cfg{Lower: t[0], Upper: t[1], Up: t[2]}
+	if o.profile == "fromzero" {
+		c.Min, c.Max = 0, 6+r.Intn(4)
+		c.Slow, c.Fast = 2, 4
+		c.Soft, c.Hard, c.Cool = 1, 2, 1
+		return c
+	}
 	if o.profile == "cycle" {
 		c.Min = r.Intn(2)
 		c.Max = c.Min + 4 + r.Intn(4)
@@ -306,7 +313,59 @@ func genInit(r *rand.Rand, o genOpts) *world.State {
 }
 
 // genEvents draws a random history against a live world (so that events mostly apply).
+// genFromZero scripts the history "nodes of one size, then nodes of another size, drain to zero, scale up from zero" with random
+// parameters: the from-zero scale-up must be sized with the size observed last.
+func genFromZero(r *rand.Rand, w *world.World, nextID map[string]int, step int) Event {
+	g := w.Gorder[0]
+	st := w.Project()
+	gs := st.Groups[g]
+	ids := world.SortedKeys(gs.Api)
+	switch {
+	case step < 3:
+		return Event{Ev: "scan"}
+	case step < 12: // rotate the instance type: new, differently sized nodes come, old ones go
+		for _, m := range gs.Asg.Members {
+			if _, ok := gs.Api[m]; !ok {
+				return Event{Ev: "register", G: g, N: m, A: 12 + 2*r.Intn(4), B: 3 + r.Intn(3)}
+			}
+		}
+		if step%3 == 0 && gs.Asg.Desired < gs.Cfg.Max {
+			return Event{Ev: "asg_desired", G: g, A: gs.Asg.Desired + 1}
+		}
+		if step%3 == 1 {
+			nextID[g]++
+			return Event{Ev: "launch", G: g, N: fmt.Sprintf("%s%d", g[:1], 100+nextID[g])}
+		}
+		return Event{Ev: "scan"}
+	case step < 40: // drain: pods finish, time passes, nodes are tainted and reaped down to zero
+		if len(gs.Pods) > 0 && step%2 == 0 {
+			return Event{Ev: "pod_finish", G: g, N: gs.Pods[0].Node}
+		}
+		if len(ids) == 0 {
+			if len(gs.Pods) == 0 {
+				return Event{Ev: "pod_arrive", G: g, A: 3 + r.Intn(20), B: 1 + r.Intn(6)}
+			}
+			return Event{Ev: "scan"}
+		}
+		if step%3 == 0 {
+			return Event{Ev: "tick"}
+		}
+		return Event{Ev: "scan"}
+	default:
+		if len(ids) == 0 && len(gs.Pods) < 3 {
+			return Event{Ev: "pod_arrive", G: g, A: 3 + r.Intn(20), B: 1 + r.Intn(6)}
+		}
+		if step%4 == 0 {
+			return Event{Ev: "tick"}
+		}
+		return Event{Ev: "scan"}
+	}
+}
+
 func genStep(r *rand.Rand, w *world.World, o genOpts, nextID map[string]int, step int) Event {
+	if o.profile == "fromzero" {
+		return genFromZero(r, w, nextID, step)
+	}
 	g := w.Gorder[r.Intn(len(w.Gorder))]
 	st := w.Project()
 	gs := st.Groups[g]
@@ -333,6 +392,9 @@ func genStep(r *rand.Rand, w *world.World, o genOpts, nextID map[string]int, ste
 		e := Event{Ev: "scan"}
 		if r.Intn(100) < o.faultPct {
 			e.Faults = genFaults(r, st, g)
+			if o.refresh && r.Intn(3) == 0 {
+				e.Faults = []world.Fault{{Op: "describe_asgs", T: "#1"}}
+			}
 		}
 		e.Twin = o.twinAll || r.Intn(6) == 0
 		return e
@@ -397,6 +459,9 @@ func genStep(r *rand.Rand, w *world.World, o genOpts, nextID map[string]int, ste
 	case "annotate":
 		return Event{Ev: []string{"annotate", "annotate", "unannotate"}[r.Intn(3)], N: pick(), S: []string{"x", "reason", ""}[r.Intn(3)]}
 	case "node_gone":
+		if r.Intn(2) == 0 && gs.Asg.Desired < gs.Asg.Max {
+			return Event{Ev: "asg_desired", G: g, A: gs.Asg.Desired + 1} // an operator bumps the desired capacity by hand
+		}
 		return Event{Ev: "node_gone", N: pick()}
 	case "asg_edit":
 		if gs.Cfg.Auto || r.Intn(3) > 0 {
@@ -483,6 +548,7 @@ func cmdDrive(fs *flag.FlagSet, args []string) {
 	dryPct := fs.Int("dry", 12, "percent of groups in dry mode")
 	fine := fs.Bool("fine", false, "large node sizes: fine-grained utilisation values")
 	realtime := fs.Duration("realtime", 0, "real-time mode: one tick is this long and really elapses (e.g. 4s); 0 = virtual time")
+	refresh := fs.Bool("refresh", false, "some faulty scans fail the first DescribeAutoScalingGroups of the scan (each costs the code's own 5 s sleep)")
 	enum := fs.Int("enum", 0, "percent of scans at which every call of the scan is failed in turn on clones of the world (fault enumeration by call index)")
 	enum2 := fs.Bool("enum2", false, "with -enum: also every pair of calls")
 	iso := fs.Bool("iso", false, "isolation twin: re-run every history without the events of one group and record both call sequences (C12)")
@@ -500,7 +566,7 @@ func cmdDrive(fs *flag.FlagSet, args []string) {
 		ev = newOut(*events)
 		defer ev.close()
 	}
-	o := genOpts{maxNodes: *maxNodes, maxGroups: *maxGroups, steps: *steps, faultPct: *faultPct, fleet: *fleet, lag: *lag, odd: *odd, profile: *profile, twinAll: *twinAll, dryPct: *dryPct, fine: *fine, iso: *iso, enum: *enum, enum2: *enum2}
+	o := genOpts{maxNodes: *maxNodes, maxGroups: *maxGroups, steps: *steps, faultPct: *faultPct, fleet: *fleet, lag: *lag, odd: *odd, profile: *profile, twinAll: *twinAll, dryPct: *dryPct, fine: *fine, iso: *iso, enum: *enum, enum2: *enum2, refresh: *refresh}
 	var wg sync.WaitGroup
 	sem := make(chan struct{}, *par)
 	var mu sync.Mutex
